@@ -146,6 +146,10 @@ def queries(tier):
         if "CM" in q.name or "CF" in q.name or "CP" in q.name:
             q.group = "~" + q.group + "#c20"
             qs.append(q)
+    for q in C14.tran_dialer_queries(tier):
+        if "DP" in q.defs.get("SKEL", ""):
+            q.group = "~" + q.group + "#c20"
+            qs.append(q)
     for q in C14.inproc_ep_queries(tier):
         if "failpair" in q.name or "failpipe" in q.name:
             qs.append(q)
